@@ -442,7 +442,7 @@ func (m *Machine) visitInstr(fr *frame, instr ssa.Instruction) continuation {
 		panic(targetPanic{v: v, msg: m.panicString(v), pos: m.posString(instr.Pos())})
 
 	case *ssa.Send:
-		m.chanSend(fr.get(instr.Chan).(*Chan), fr.get(instr.X), instr.Pos())
+		m.chanSend(fr, fr.get(instr.Chan).(*Chan), fr.get(instr.X), instr.Pos())
 
 	case *ssa.Store:
 		addr := fr.get(instr.Addr).(*Value)
